@@ -6,25 +6,32 @@
                        (exact equality, which implies the model's value equality)
      c10_reserved      serialisation fails iff a record with a key __entity/__extn/__expr occurs
                        in the value, and then with the reserved-key error
-     c10_context_rt    the same round trip for contexts whose top-level keys are not reserved
-     c10_context_rt_refuted   the full statement for contexts is FALSE of the faithful model: a
-                       one-entry context {"__entity": {type,id}} serialises (no refusal at the top
-                       level) and the result is not a record when parsed back (finding
-                       C10:context_top_level_reserved_key, replayed on the implementation)
-     c10_context_rt_fixed     with the repair proposed for that finding (top-level keys checked like
-                       nested keys, `context_to_json_fixed`) the context round trip holds unconditionally
+     c10_context_rt    the same round trip for contexts, with no condition on the keys (since /repo
+                       4b26962 Context::to_json_value refuses reserved top-level keys; before that fix
+                       the statement was false of the faithful model — finding
+                       C10:context_top_level_reserved_key, now fixed)
+     c10_context_reserved   a context is refused iff a reserved key occurs at the top level or below
      c10_entity_rt     entity (uid, attrs, tags, stored ancestors) -> JSON -> entity without schema
                        returns the entity itself: same uid, attribute and tag values, ancestor list
+     c10_store_rt      a store as Entities holds it (`store_ok`: well-formed entities, unique uids,
+                       ancestor lists transitively closed through the entities present, no entity its
+                       own ancestor) -> JSON -> store without schema: the same entities in the same
+                       order with the same uid, attributes, tags and the same ancestor SET
+                       (the closure recomputed by the parser adds nothing)
+     c10_store_schema_actions   loading WITH a schema returns the closed document entities (minus those
+                       overridden by an equal-uid schema action) followed by exactly the schema's
+                       action entities: all of them are present and every other entity has a uid
+                       different from every schema action
      c10_implicit_explicit   for every schema type built from bool/long/string/entity/extension,
                        sets and CLOSED records (optional attributes present or absent), every JSON
                        form `variant t v j` of a value v of type t — free per-node choice of
                        {type,id} vs __entity, bare string vs {fn,arg} vs __extn, at any depth inside
                        sets and records — parses under the type to v, and the explicit serialisation
                        of v parses without a type to v as well.
-   Not proved (correspondence + implementation-level oracle only): schema-directed parsing at the
-   ENTITY level (c10_schema_rt: attribute-by-attribute dispatch on the schema's entity type, open
-   entity shapes, tags) and the STORE level (c10_store_rt: transitive closure, duplicates, the
-   schema's action entities); open record types (unreachable from schemas today). *)
+   Not proved (correspondence + implementation-level oracle only): that schema-directed parsing at the
+   ENTITY level succeeds on conformant data and returns the same entity (c10_schema_rt: dispatch on
+   the schema's entity type, open entity shapes, tags) — hence the with-schema store round trip is
+   proved only up to the parse step; open record types (unreachable from schemas today). *)
 From Coq Require Import List Bool String.
 Open Scope string_scope.
 From Cedar Require Import EntJson EntJsonProofs.
@@ -42,22 +49,15 @@ Proof. exact reserved_iff. Qed.
 Print Assumptions c10_reserved.
 
 Theorem c10_context_rt : forall pairs j,
-  existsb reserved_key (map fst pairs) = false ->
   wf_rval (RRecord pairs) = true -> rval_evaluable (RRecord pairs) = true ->
   context_to_json pairs = JOk j -> context_from_json None j = JOk pairs.
 Proof. exact context_rt. Qed.
 Print Assumptions c10_context_rt.
 
-Theorem c10_context_rt_refuted :
-  exists pairs j, context_to_json pairs = JOk j /\ context_from_json None j = JErr ENotARecord.
-Proof. exact context_rt_refuted. Qed.
-Print Assumptions c10_context_rt_refuted.
-
-Theorem c10_context_rt_fixed : forall pairs j,
-  wf_rval (RRecord pairs) = true -> rval_evaluable (RRecord pairs) = true ->
-  context_to_json_fixed pairs = JOk j -> context_from_json None j = JOk pairs.
-Proof. exact context_rt_fixed. Qed.
-Print Assumptions c10_context_rt_fixed.
+Theorem c10_context_reserved : forall pairs, calls_nonempty (RRecord pairs) = true ->
+  ((exists e, context_to_json pairs = JErr e) <-> has_reserved (RRecord pairs) = true).
+Proof. exact context_reserved. Qed.
+Print Assumptions c10_context_reserved.
 
 Theorem c10_entity_rt : forall e j,
   wf_entity e = true -> entity_to_json e = JOk j -> entity_from_json None j = EOk e.
@@ -69,6 +69,24 @@ Theorem c10_implicit_explicit : forall t v j je,
   json_to_value (Some t) j = JOk v /\ json_to_value None je = JOk v.
 Proof. exact implicit_explicit. Qed.
 Print Assumptions c10_implicit_explicit.
+
+Theorem c10_store_rt : forall st j, store_ok st -> store_to_json st = JOk j ->
+  exists st', store_from_json None [] j = SOk st' /\ Forall2 same_entity st st'.
+Proof. exact store_rt. Qed.
+Print Assumptions c10_store_rt.
+
+Theorem c10_store_schema_actions : forall sch acts l st',
+  store_from_json (Some sch) acts (JArr l) = SOk st' ->
+  (exists es closed,
+     emapM (entity_from_json (Some sch)) l = EOk es /\ close_store es = SOk closed /\
+     st' = filter (fun e => negb (existsb (fun a => juid_eqb (je_uid e) (je_uid a)) acts)) closed ++ acts) /\
+  incl acts st' /\
+  (forall e, In e st' -> In e acts \/ (forall a, In a acts -> je_uid a <> je_uid e)).
+Proof.
+  intros sch acts l st' H. split; [exact (store_schema_actions sch acts l st' H)|].
+  exact (store_schema_actions_in sch acts l st' H).
+Qed.
+Print Assumptions c10_store_schema_actions.
 
 (* non-vacuity: a value with every constructor, odd record keys and a nested call is well formed,
    serialises, and comes back; a reserved key is refused *)
@@ -147,5 +165,27 @@ Proof. vm_compute. reflexivity. Qed.
 Example ex_entity_rt : exists j, entity_to_json ex_entity = JOk j /\ entity_from_json None j = EOk ex_entity.
 Proof.
   let r := eval vm_compute in (entity_to_json ex_entity) in match r with JOk ?x => exists x end.
+  split; vm_compute; reflexivity.
+Qed.
+
+(* a store with a two-step hierarchy (c < p < g, g absent): store_ok holds, it serialises and comes back *)
+Definition ex_g : juid := mkJuid (s2str "G") (s2str "g").
+Definition ex_p : jentity := mkJentity (mkJuid (s2str "G") (s2str "p")) [] [] [ex_g].
+Definition ex_c : jentity := mkJentity (mkJuid (s2str "T") (s2str "c")) [(s2str "a", RLong 1)] [] [je_uid ex_p; ex_g].
+Example ex_store_ok : store_ok [ex_c; ex_p].
+Proof.
+  split; [repeat constructor|]. split; [vm_compute; reflexivity|].
+  assert (Hclosed : forall a, (a = je_anc ex_c \/ a = je_anc ex_p) -> closed_set [ex_c; ex_p] a).
+  { intros a Ha p e' Hp Hf. destruct Ha as [->| ->]; cbn in Hp.
+    - destruct Hp as [<-|[<-|[]]]; vm_compute in Hf; inversion Hf; subst; intros u Hu; cbn in *; tauto.
+    - destruct Hp as [<-|[]]; vm_compute in Hf; inversion Hf. }
+  constructor; [split; [apply Hclosed; auto|]|constructor; [split; [apply Hclosed; auto|]|constructor]].
+  - cbn. intros [H|[H|[]]]; discriminate.
+  - cbn. intros [H|[]]; discriminate.
+Qed.
+Example ex_store_rt : exists j st', store_to_json [ex_c; ex_p] = JOk j /\ store_from_json None [] j = SOk st'.
+Proof.
+  let r := eval vm_compute in (store_to_json [ex_c; ex_p]) in match r with JOk ?x => exists x end.
+  let r := eval vm_compute in (close_store [ex_c; ex_p]) in match r with SOk ?x => exists x end.
   split; vm_compute; reflexivity.
 Qed.
